@@ -176,10 +176,28 @@ def decideTraces (keep : Nat → Bool) (s : St) (ts : List Trace) : St :=
 /-- `TakeExpiredTraces`: not `now.Before(sendBy)`; a busy worker does not tick -/
 def expired (held : List Nat) (now : Int) (t : Trace) : Bool := !held.contains t.w && decide (t.sendBy ≤ now)
 
+/-- one decision pass at instant `now` over the buffered traces selected by `ex` -/
+def decideWhere (keep : Nat → Bool) (s : St) (now : Int) (ex : Trace → Bool) : St :=
+  decideTraces keep { s with now := now, buf := s.buf.filter (fun t => !ex t) } (sortT (s.buf.filter ex))
+
 def tick (keep : Nat → Bool) (s : St) (ns : Nat) : St :=
   if s.stopped then { s with now := s.now + ns } else
-  decideTraces keep { s with now := s.now + ns, buf := s.buf.filter (fun t => !expired s.held (s.now + ns) t) }
-    (sortT (s.buf.filter (expired s.held (s.now + ns))))
+  decideWhere keep s (s.now + ns) (expired s.held (s.now + ns))
+
+/-- the first worker (index order) whose pass at `now` contains a trace the sampler keeps -/
+def firstKeeper (keep : Nat → Bool) (s : St) (now : Int) : Option Nat :=
+  ((s.buf.filter (fun t => expired s.held now t && keep t.tid)).map (·.w)).foldl
+    (fun (m : Option Nat) w => match m with | none => some w | some v => some (min v w)) none
+
+/-- a tick during which `Stop` lands: the workers tick one after the other; the first one whose
+pass reaches the hand-over of a kept trace (`send`) is still inside that pass when `Stop` closes
+the input channels, and finishes it; the workers after it find their channels closed before they
+look at their ticker and never tick.  (No such worker: an ordinary tick.) -/
+def tickUpTo (keep : Nat → Bool) (s : St) (ns : Nat) : St :=
+  decideWhere keep s (s.now + ns) (fun t => expired s.held (s.now + ns) t &&
+    (match firstKeeper keep s (s.now + ns) with
+     | none => true
+     | some w => decide (t.w ≤ w)))
 
 /-- the `sendTraces` goroutine takes one trace from `tracesToSend` -/
 def fwdOne (c : Cfg) (s : St) : St :=
@@ -233,6 +251,7 @@ inductive Op
   | ev (sid dest : Nat)                           -- EnqueueEvent called directly (router)
   | txtick (ns : Nat)                             -- transmission clock +ns, stale-batch ticker fires
   | stop                                          -- InMemCollector.Stop
+  | tickstop (ns : Nat)                           -- a tick with Stop requested while a worker is inside its pass
   | txstop                                        -- DirectTransmission.Stop
   deriving DecidableEq, Repr
 
@@ -253,7 +272,16 @@ def step (c : Cfg) (keep : Nat → Bool) (s : St) : Op → St × Out
   | .stop =>
     if s.stopped then (s, .panic)                 -- close of closed channel
     else (stopBody c keep s, .ok)
+  | .tickstop ns =>
+    if s.stopped then ({ s with now := s.now + ns }, .refused)
+    else (stopBody c keep (tickUpTo keep s ns), .ok)
   | .txstop => ({ s with tx := s.tx.stop }, .ok)
+
+/-- the operations that request `InMemCollector.Stop` -/
+def Op.isStop : Op → Bool
+  | .stop => true
+  | .tickstop _ => true
+  | _ => false
 
 def init : St := {}
 
@@ -263,6 +291,63 @@ def run (c : Cfg) (keep : Nat → Bool) (ops : List Op) : St :=
 /-- spans still waiting somewhere inside the collector -/
 def located (s : St) : List Span :=
   s.qIn.map (·.2) ++ s.qPeer.map (·.2) ++ s.buf.flatMap (·.spans) ++ s.toSend.flatMap (·.spans)
+
+/-! ## The order of `InMemCollector.Stop` and the producers of `tracesToSend`
+
+```go
+close(worker.incoming); close(worker.fromPeer)   // closeInputs
+i.workersWG.Wait()                               // waitWorkers
+close(i.tracesToSend)                            // closeOut
+i.sendTracesWG.Wait()                            // waitSender
+```
+A worker is a producer on `tracesToSend` for as long as it runs: a decision pass (`pass w k`: `k`
+kept traces to hand over) can start at any time before the worker has exited — also after its
+inputs were closed, when the select still picks the ticker — and each `work w` step either does
+the next `i.tracesToSend <- trace` of the pass or, with nothing left to send and the inputs
+closed, lets the worker exit.  A send on the closed channel panics (`violated`).
+`Stop`'s phases are a parameter (`order`) so that the coded order can be compared with others.
+-/
+inductive Phase | closeInputs | waitWorkers | closeOut | waitSender
+  deriving DecidableEq, Repr
+
+inductive PEv
+  | pass (w k : Nat)      -- worker w starts a pass with k hand-overs
+  | work (w : Nat)        -- worker w takes its next step
+  | stop                  -- Stop takes its next phase (waitWorkers blocks while a worker is alive)
+  deriving DecidableEq, Repr
+
+structure PSt where
+  pc : Nat := 0
+  live : List Nat                  -- workers that have not exited
+  pend : Nat → Nat := fun _ => 0   -- hand-overs the worker's current pass still has to do
+  inClosed : Bool := false
+  outClosed : Bool := false
+  violated : Bool := false         -- a send on the closed `tracesToSend` has happened
+
+def codedOrder : List Phase := [.closeInputs, .waitWorkers, .closeOut, .waitSender]
+def swappedOrder : List Phase := [.closeInputs, .closeOut, .waitWorkers, .waitSender]
+
+def pstep (order : List Phase) (s : PSt) : PEv → PSt
+  | .pass w k =>
+    if w ∈ s.live then { s with pend := fun x => if x = w then s.pend x + k else s.pend x } else s
+  | .work w =>
+    if w ∈ s.live then
+      if 0 < s.pend w then
+        { s with pend := fun x => if x = w then s.pend x - 1 else s.pend x,
+                 violated := s.violated || s.outClosed }
+      else if s.inClosed then { s with live := s.live.filter (· ≠ w) }
+      else s
+    else s
+  | .stop =>
+    match order[s.pc]? with
+    | some .closeInputs => { s with pc := s.pc + 1, inClosed := true }
+    | some .waitWorkers => if s.live = [] then { s with pc := s.pc + 1 } else s
+    | some .closeOut => { s with pc := s.pc + 1, outClosed := true }
+    | some .waitSender => { s with pc := s.pc + 1 }
+    | none => s
+
+def prun (order : List Phase) (workers : List Nat) (evs : List PEv) : PSt :=
+  evs.foldl (pstep order) { live := workers }
 
 /-! ## `Agent.healthCheck`
 
